@@ -593,7 +593,7 @@ class Model:
                 raise Unspecified("std type under coercion / constraints")
             if d.__class__ is want or (want is float and d.__class__ is int):
                 if d in STD_IMAGES[t["t"]] and d.__class__ is not bool:
-                    return ["std", t["t"], d], None
+                    return ["std", t["t"], float(d) if want is float else d], None
                 raise Unspecified("std image outside the modelled pool")
             return None, Err([f"expected type {'number' if want is float else 'string'}, found {jname(d)}"])
         if k == "ann":
@@ -1275,6 +1275,20 @@ def _ser_object(self, t: dict, v):
                 out = UnorderedDict(out)  # keys merged from a mapping have no specified order
             for kk, vv in sub.items():
                 out[kk] = vv
+    for m in (cd.get("methods") or []) if not td else []:
+        # serialized methods / properties: after the fields, under aliaser(alias or name); an Undefined result is
+        # omitted, a None result too under exclude_none when the return type is Optional
+        res = m["value"] if m["kind"] == "const" else vals.get(m["field"])
+        if res is None:
+            raise Mismatch
+        ralts = union_alts(m["ret"]) if m["ret"]["k"] in ("opt", "union") else [m["ret"]]
+        if res[0] == "undef":
+            if any(a["k"] == "undefined" for a in ralts):
+                continue
+            raise Unspecified("Undefined returned by a method whose return type does not allow it")
+        if o.exclude_none and res[0] == "none" and any(a["k"] == "none" for a in ralts):
+            continue
+        out[ALIASERS[o.aliaser](m.get("alias") or m["n"])] = self.ser(m["ret"], res)
     if td and o.additional_properties:
         names = {f["n"] for f in cd["fields"]}
         for kk, vv in vals.items():
